@@ -16,8 +16,9 @@
    scan_string/scan_file reset use_stack_ptr to 0 and create an empty modtab (scan_file adds
    the file name itself, which carries the ".nev" suffix and so never equals a module name).
    Module names are abstracted to numbers; whether the file can be opened is an input of the
-   event (the file system is outside the model).  After yyterminate() the parser does not
-   call the scanner again (bison keeps YYEOF as look-ahead), so the model stops there.
+   event (the file system is outside the model).  After yyterminate() bison normally keeps
+   YYEOF as look-ahead; only the error-recovery action of `func: TOK_FUNC TOK_ID error`
+   (yyclearin) makes it call the scanner again, which then meets <<EOF>> again (modelled).
 
    USE_STACK_SIZE and use_guard are regenerated from the source text (Gen/FrontConsts.v).
    Every array access is recorded so that the theorem can talk about indices, not only
@@ -46,7 +47,16 @@ Definition u_init : ustate :=
 Definition mem_name (n : N) (l : list N) : bool := existsb (N.eqb n) l.
 
 Definition use_step (s : ustate) (e : uevent) : ustate :=
-  if u_term s then s else
+  if u_term s then
+    (* the parser's error recovery (yyclearin) can ask for another token after the final EOF:
+       the <<EOF>> rule runs again, decrements again and terminates again without touching the
+       array.  No text is left, so no module name can be scanned any more. *)
+    match e with
+    | EEof => {| u_ptr := u_ptr s - 1; u_modtab := u_modtab s; u_opened := u_opened s; u_term := true;
+                 u_access := u_access s; u_errors := u_errors s |}
+    | EUse _ _ => s
+    end
+  else
   match e with
   | EUse n opens =>
     if use_guard (u_ptr s) then
